@@ -1,7 +1,7 @@
 """C12 Connection pools keep exact accounting and close what they open (W-FULL, small-capacity knobs)."""
 from dsim import seams
 from dsim.core import HarnessError, Deadlock
-from props.common import gen_strategy, quiet_logging, Violations, set_knob
+from props.common import gen_strategy, quiet_logging, Violations, set_knob, line_offset
 from worlds.reqpath import ReqPathRun, base_plan, RETRY_NEXT_HOST, RETHROW
 from worlds.full import ReqObs
 
@@ -93,7 +93,11 @@ def gen_pool_plan(rng, tier, with_shutdown=True):
                             rng.choice([0.05, 0.15, 0.3]), rng.choice([0.01, 0.05, 0.2])]
         if rng.random() < 0.3:
             # one deep change point instead: the thread that reaches one given line of that function sits there for a long while
-            p['focus_stall'] = [p['focus_stall'][0], 1.0, rng.choice([0.05, 0.2, 0.5]), rng.randrange(1, 45), rng.choice([1, 2, 4])]
+            rel = rng.randrange(1, 45)
+            if p['focus_stall'][0] == 'shutdown' and rng.random() < 0.6:
+                # ... right before the pool closes its connection (after it has looked at it)
+                rel = line_offset('cassandra.pool', 'HostConnection.shutdown', 'connection.close()', rel)
+            p['focus_stall'] = [p['focus_stall'][0], 1.0, rng.choice([0.05, 0.2, 0.5]), rel, rng.choice([1, 2, 4])]
         if with_shutdown and p['shutdown']['at'] is not None and rng.random() < 0.5:
             p['shutdown_on_stall'] = True
     if rng.random() < 0.35:
